@@ -30,6 +30,8 @@ CONSTANTS Kind,          \* "dict" | "list" | "obj"
           MaxLevel,      \* depth bound
           SimK,          \* 0: quantify over whole argument sets; k > 0: k random members (simulation)
           Small,         \* TRUE: reduced argument pools (exhaustive configurations)
+          Avoid,         \* TRUE: second simulation pass that stays away from the two mechanisms with open findings
+                         \*       (element removal at min_size, rebind-append/insert at max_size) to keep behaviours long
           Acts           \* enabled action families
 
 VARIABLES root,          \* content (value record)
@@ -190,18 +192,20 @@ DRebind2 == "batch" \in Acts /\ Kind = "dict" /\ Batch2("Rebind2")
 ORebind2 == "batch" \in Acts /\ Kind = "obj" /\ Batch2("Rebind2")
 
 \* ---- the typed list (the root itself, or the nested list at key 3)
+CanShrink == ~Avoid \/ Len0 > Lo
+CanGrow == ~Avoid \/ Len0 < Hi
 LSet == "lset" \in Acts /\ HasList /\ \E i \in P(0..(Len0 - 1)), v \in P(ElemPool \cup {VMissing}) :
-          StepL(LSetAt(TheList, i, v), <<"LSet", i, v>>)                                     \* l[i] = v
+          (v = VMissing => CanShrink) /\ StepL(LSetAt(TheList, i, v), <<"LSet", i, v>>)                                     \* l[i] = v
 LRebindSet == "rebind" \in Acts /\ HasList /\ \E i \in P(0..(Len0 - 1)), v \in P(ElemPool \cup {VMissing}) :
-          StepL(LSetAt(TheList, i, v), <<"LRebindSet", i, v>>)                               \* root.rebind({'k3[i]': v})
-LRebindAppend == "rebind" \in Acts /\ HasList /\ \E v \in P(ElemPool) :
+          (v = VMissing => CanShrink) /\ StepL(LSetAt(TheList, i, v), <<"LRebindSet", i, v>>)                               \* root.rebind({'k3[i]': v})
+LRebindAppend == "rebind" \in Acts /\ HasList /\ CanGrow /\ \E v \in P(ElemPool) :
           StepL(LInsAt(TheList, Len0, v, Mirror), <<"LRebindAppend", Len0, v>>)              \* rebind({'k3[len]': v})
-LRebindInsert == "rebind" \in Acts /\ HasList /\ \E i \in P(0..Len0), v \in P(ElemPool) :
+LRebindInsert == "rebind" \in Acts /\ HasList /\ CanGrow /\ \E i \in P(0..Len0), v \in P(ElemPool) :
           StepL(LInsAt(TheList, i, v, Mirror), <<"LRebindInsert", i, v>>)                    \* rebind({'k3[i]': pg.Insertion(v)})
 LRebind2 == "batch" \in Acts /\ HasList /\ \E i \in P(0..(Len0 - 1)), j \in P(0..(Len0 - 1)), v \in P(ElemPool), w \in P(ElemPool) :
           i < j /\ StepL(LReb2(TheList, i, v, j, w), <<"LRebind2", i, v, j, w>>)
-LDel == "ldel" \in Acts /\ HasList /\ \E i \in P(0..(Len0 - 1)) : StepL(LDelAt(TheList, i, Mirror), <<"LDel", i>>)
-LPop == "ldel" \in Acts /\ HasList /\ \E i \in P(0..(Len0 - 1)) : StepL(LDelAt(TheList, i, Mirror), <<"LPop", i>>)
+LDel == "ldel" \in Acts /\ HasList /\ CanShrink /\ \E i \in P(0..(Len0 - 1)) : StepL(LDelAt(TheList, i, Mirror), <<"LDel", i>>)
+LPop == "ldel" \in Acts /\ HasList /\ CanShrink /\ \E i \in P(0..(Len0 - 1)) : StepL(LDelAt(TheList, i, Mirror), <<"LPop", i>>)
 LRemove == "ldel" \in Acts /\ HasList /\ \E v \in P(ElemPool) :
           StepL(IF \E i \in 1..Len0 : TheList.xs[i] = v
                 THEN LDelAt(TheList, (CHOOSE i \in 1..Len0 : TheList.xs[i] = v /\ \A h \in 1..(i-1) : TheList.xs[h] # v) - 1, FALSE)
